@@ -106,6 +106,7 @@ pub enum Status {
     Panic = 5,
     Eof = 6,
     Reset = 7,
+    Timeout = 8,
 }
 
 pub struct SeqConn {
@@ -437,6 +438,8 @@ pub enum Ev {
     Chunk(usize, Vec<u8>),
     Eof(usize),
     Reset(usize),
+    /// the client stays silent until the server's receive timeout has passed
+    Idle(usize),
     Tick(u64),
     Dump,
 }
@@ -508,6 +511,16 @@ pub fn run_case(cfg: &CaseCfg, events: &mut dyn FnMut(&[Vec<u8>], bool) -> Optio
                 let _ = writeln!(obs, "{}", w.status_line(i));
                 open = false;
             }
+            Ev::Idle(i) => {
+                // Client::handle: the read of the next frame is abandoned, the handler returns
+                let c = w.conn(i);
+                if c.status == Status::Open {
+                    c.status = Status::Timeout;
+                }
+                let _ = writeln!(trace, "I {}", i);
+                let _ = writeln!(obs, "{}", w.status_line(i));
+                open = false;
+            }
             Ev::Tick(d) => {
                 w.tick(d);
                 let _ = writeln!(trace, "T {}", d);
@@ -537,6 +550,7 @@ pub fn parse_trace(text: &str) -> Vec<(CaseCfg, Vec<Ev>)> {
             "C" => cases.last_mut().unwrap().1.push(Ev::Chunk(p[1].parse().unwrap(), gen::unhex(p[2]))),
             "E" => cases.last_mut().unwrap().1.push(Ev::Eof(p[1].parse().unwrap())),
             "X" => cases.last_mut().unwrap().1.push(Ev::Reset(p[1].parse().unwrap())),
+            "I" => cases.last_mut().unwrap().1.push(Ev::Idle(p[1].parse().unwrap())),
             "T" => cases.last_mut().unwrap().1.push(Ev::Tick(p[1].parse().unwrap())),
             "D" => cases.last_mut().unwrap().1.push(Ev::Dump),
             _ => {}
@@ -561,6 +575,7 @@ pub fn replay(text: &str, trace: &mut String, obs: &mut String) {
             "C" => cases.last_mut().unwrap().1.push(Ev::Chunk(p[1].parse().unwrap(), gen::unhex(p[2]))),
             "E" => cases.last_mut().unwrap().1.push(Ev::Eof(p[1].parse().unwrap())),
             "X" => cases.last_mut().unwrap().1.push(Ev::Reset(p[1].parse().unwrap())),
+            "I" => cases.last_mut().unwrap().1.push(Ev::Idle(p[1].parse().unwrap())),
             "T" => cases.last_mut().unwrap().1.push(Ev::Tick(p[1].parse().unwrap())),
             "D" => cases.last_mut().unwrap().1.push(Ev::Dump),
             _ => {}
@@ -848,6 +863,14 @@ impl Gen {
                 ]);
                 let l = self.item_limit;
                 req.bodylen = Some(l + 1 + self.rng.below(200) as u32);
+                // ... and sometimes with a header that is invalid on top of that: it is refused
+                // as invalid, not skipped as too large
+                match self.rng.below(8) {
+                    0 => req.dtype = 1 + self.rng.below(255) as u8,
+                    1 => req.magic = *self.rng.pick(&[0x81u8, 0x00, 0xff]),
+                    2 => req.opcode = *self.rng.pick(&[0x25u8, 0x80, 0xff]),
+                    _ => {}
+                }
             }
             0 => req.magic = *self.rng.pick(&[0x81u8, 0x00, 0xff, 0x7f]),
             1 => req.opcode = *self.rng.pick(&[0x1bu8, 0x1f, 0x25, 0x26, 0x80, 0xff]),
@@ -918,7 +941,7 @@ impl Gen {
             self.conn += 1;
             self.count("conn_closed");
             // bytes queued for the closed connection are never read
-            self.queue.retain(|e| !matches!(e, Ev::Chunk(..)));
+            self.queue.retain(|e| !matches!(e, Ev::Chunk(..) | Ev::Idle(..)));
         }
         if let Some(e) = self.queue.pop_front() {
             return Some(e);
@@ -939,11 +962,13 @@ impl Gen {
             self.pending_dump = true;
             return Some(Ev::Tick(d));
         }
-        let nreq = 1 + if self.rng.chance(1, 4) { self.rng.below(4) as usize } else { 0 };
+        let nreq = 1 + if self.rng.chance(if fl == "big" { 2 } else { 1 }, 4) { self.rng.below(4) as usize } else { 0 };
         let mut bytes = Vec::new();
+        let mut starts: Vec<usize> = Vec::new();
         for _ in 0..nreq {
+            starts.push(bytes.len());
             // the configuration profile delimits exchanges with a sentinel request: whole frames only
-            let bad = if fl == "malformed" { 40 } else if fl == "cfg" { 0 } else { 2 };
+            let bad = if fl == "malformed" { 40 } else if fl == "idle" { 25 } else if fl == "cfg" { 0 } else { 2 };
             if self.rng.chance(bad, 100) {
                 bytes.extend_from_slice(&self.malformed());
             } else {
@@ -955,7 +980,19 @@ impl Gen {
             self.count("eof");
             self.queue.push_back(Ev::Eof(self.conn));
         }
-        let cutty = fl == "cuts" || fl == "malformed";
+        if fl == "big" && starts.len() >= 2 && self.rng.chance(1, 2) {
+            // a read boundary inside the header of a request that follows a large one: the first
+            // bytes of that header arrive together with the end of the large body
+            let j = 1 + self.rng.below(starts.len() as u64 - 1) as usize;
+            let cut = starts[j] + 1 + self.rng.below(23) as usize;
+            if cut < bytes.len() {
+                self.count("cut_inside_a_following_header");
+                let rest = bytes.split_off(cut);
+                self.queue.insert(0, Ev::Chunk(self.conn, rest));
+                return Some(Ev::Chunk(self.conn, bytes));
+            }
+        }
+        let cutty = fl == "cuts" || fl == "malformed" || fl == "idle";
         if fl != "cfg" && self.rng.chance(if cutty { 70 } else { 10 }, 100) && bytes.len() > 1 {
             // deliver the bytes in several reads
             self.count("cut_chunk");
@@ -971,10 +1008,24 @@ impl Gen {
             }
             pieces.push(bytes[prev..].to_vec());
             let first = pieces.remove(0);
+            // the idle flavour: the client goes silent in the middle of what it is sending, for
+            // longer than the server's receive timeout (the rest is never sent: the connection is gone)
+            let stall_at = if fl == "idle" && self.rng.chance(1, 7) { Some(self.rng.below(pieces.len() as u64) as usize) } else { None };
+            let mut at = 0;
             for (j, p) in pieces.into_iter().enumerate() {
-                self.queue.insert(j, Ev::Chunk(self.conn, p));
+                if stall_at == Some(j) {
+                    self.count("idle_inside_a_write");
+                    self.queue.insert(at, Ev::Idle(self.conn));
+                    at += 1;
+                }
+                self.queue.insert(at, Ev::Chunk(self.conn, p));
+                at += 1;
             }
             return Some(Ev::Chunk(self.conn, first));
+        }
+        if fl == "idle" && self.rng.chance(1, 20) {
+            self.count("idle_between_requests");
+            self.queue.push_back(Ev::Idle(self.conn));
         }
         Some(Ev::Chunk(self.conn, bytes))
     }
